@@ -1,7 +1,309 @@
-import ArchSim.Model.Rv
+/-
+C01 — single-cycle RV32IM execution = ISA reference semantics.
+
+Property theorems only (plus non-vacuity examples).  The reference semantics `RvSpec` (bit-vector
+registers, byte memory, ecall table) is in `ArchSim/Spec/RvSpec.lean`; the abstraction `α`, the
+well-formedness predicates and the iterated steps are in `ArchSim/Lemmas/C01Defs.lean`; one refinement
+lemma per mnemonic (`exec_add`, …, `exec_ecall`) and all helper lemmas are in `ArchSim/Lemmas/C01*.lean`.
+
+Vocabulary
+ * `InstrWF i`   : register numbers `< 32`, stored immediate in the range of its format;
+ * `Supported op`: every mnemonic except CSR*, FENCE, EBREAK;
+ * `StOK s`      : flat RISC-V data memory whose cells are bytes (`C18.WF`), register values `< 2^32`,
+                   `x0 = 0`, `0 ≤ pc < 2^32` — preserved by every step (`invariant_preserved`);
+ * `ProgOK prog` : at most 4096 instructions (the instruction memory ends at 2^14), all well-formed
+                   and supported;
+ * `α s`         : registers ↦ `BitVec.ofNat 32`, memory cells ↦ `BitVec.ofNat 8`,
+                   pc ↦ `BitVec.ofInt 32`, output and exit code unchanged; counters are dropped;
+ * `execOne i s` : `behavior i s` followed by the stage's `pc := (pc + 4) % 2^32` (not at a fault);
+ * `αBeh`/`αStep`: outcome ↦ `some (.ok (α st))`, or `some (.error f)` with the model fault mapped by
+                   `αFault` (address error ↦ access fault, invalid ecall code ↦ ecall fault).
+-/
+import ArchSim.Lemmas.C01More
+
 namespace ArchSim.Props.C01
-open ArchSim.Rv
-/-- Register x0 is never written. -/
-theorem x0_unchanged (regs : Nat → Nat) (v : Nat) : setReg regs 0 v 0 = regs 0 := by
-  simp [setReg]
+open ArchSim ArchSim.Rv ArchSim.Spec.RvSpec ArchSim.Lemmas.C01
+
+/-! ## (a) one instruction -/
+
+/-- For EVERY supported instruction (all 46 mnemonics: integer register/immediate, shifts, M extension,
+    loads, stores, branches, LUI/AUIPC, JAL/JALR, ecall), every register triple (aliasing and x0
+    included), every immediate of its format, and every state with a flat memory: executing it in
+    single-cycle mode and abstracting gives exactly what the reference semantics prescribes — same
+    registers, memory, pc, output, exit code, or the same fault. -/
+theorem exec_refines (i : Instr) (s : St) (hi : InstrWF i) (hsup : Supported i.op) (hs : StOK s) :
+    αBeh (execOne i s) = some (exec i (α s)) :=
+  exec_refines_all i s hi hsup hs
+
+/-- At a fault (unmapped data address, invalid ecall code) registers, pc, output and exit code are
+    unchanged, and memory is unchanged except that a store has written the bytes preceding the first
+    unmapped one — the state the specification's `atFault` describes. -/
+theorem fault_state (i : Instr) (s : St) (hi : InstrWF i) (hs : StOK s) (f : Fault)
+    (hf : (execOne i s).fault = some f) : α (execOne i s).st = atFault i (α s) :=
+  fault_state_lem i s hi hs f hf
+
+/-- `InstrWF` is what the Python constructors guarantee: whatever raw immediate is passed, the stored
+    one lies in the range of the instruction's format. -/
+theorem constructor_imm_wf (op : Op) (raw : Int) (h : Supported op) : ImmOK op (storedImm op raw) :=
+  storedImm_ok op raw h
+
+/-! ## (b) x0 -/
+
+/-- Register 0 is never written: one step (of ANY state — cached or flat memory, any instruction
+    memory, any instruction) leaves `regs 0` unchanged. -/
+theorem x0_unchanged (s : St) : (singleStep s).st.regs 0 = s.regs 0 :=
+  singleStep_regs0 s
+
+/-- Hence register 0 reads 0 in every state reachable from a state with `regs 0 = 0`, by raw steps or
+    by simulation steps, for every number of steps. -/
+theorem x0_zero (s : St) (h : s.regs 0 = 0) (n : Nat) :
+    (stepN n s).st.regs 0 = 0 ∧ (simN n s).st.regs 0 = 0 := by
+  rw [stepN_regs0, simN_regs0]; exact ⟨h, h⟩
+
+/-- In the reference semantics register number 0 reads zero by construction, whatever the state. -/
+theorem spec_x0_zero (σ : SpecSt) : σ.get 0 = 0 := rfl
+
+/-! ## (c) steps and runs -/
+
+/-- One `singleStep` (fetch, count, execute, uncounted re-read for loads, pc update) refines one step
+    of the reference machine on the same program. -/
+theorem step_refines (prog : List Instr) (hp : ProgOK prog) (s : St)
+    (him : s.imem = { prog := prog, cache := none }) (hs : StOK s) :
+    αStep (singleStep s) = some (step prog (α s)) :=
+  step_refines_lem prog hp s him hs
+
+/-- The hypotheses are an invariant: a step keeps the instruction memory and re-establishes `StOK`
+    (also when it faults); a reported fault carries the address of the faulting instruction. -/
+theorem invariant_preserved (prog : List Instr) (hp : ProgOK prog) (s : St)
+    (him : s.imem = { prog := prog, cache := none }) (hs : StOK s) :
+    (singleStep s).st.imem = s.imem ∧ StOK (singleStep s).st ∧
+      (∀ a f, (singleStep s).fault = some (a, f) → a = s.pc) :=
+  ⟨(step_preserves prog hp s him hs).1, StOK_step prog hp s him hs, (step_preserves prog hp s him hs).2.2⟩
+
+/-- On a flat memory the uncounted re-read of a load returns a value and changes nothing. -/
+theorem load_reread_noop (i : Instr) (s : St) (m : Mem.Mem) (hm : s.mem = .flat m)
+    (hc : m.cfg = Mem.riscvCfg) (hr : s.regs i.rs1 < 4294967296) (hty : i.op.ty = .memI)
+    (hf : (behavior i s).fault = none) :
+    ∃ r, memoryAccess i (some ((wrapU (s.regs i.rs1 : Int) : Int) + i.imm)) none (behavior i s).st.mem false =
+      some { mem := (behavior i s).st.mem, extra := 0, res := .ok r } :=
+  reread_flat i s m hm hc hr hty hf
+
+/-- For EVERY number of steps `n`: `n` raw `singleStep`s (stopping at the first fault) refine `n` steps
+    of the reference machine. -/
+theorem run_refines (prog : List Instr) (hp : ProgOK prog) (n : Nat) (s : St)
+    (him : s.imem = { prog := prog, cache := none }) (hs : StOK s) :
+    αStep (stepN n s) = some (iter prog n (α s)) :=
+  (stepN_refines_lem prog hp n s him hs).1
+
+/-- The simulation is done exactly when the reference machine has halted: the pc holds no instruction
+    or an exit code is set. -/
+theorem done_iff (prog : List Instr) (s : St) (him : s.imem = { prog := prog, cache := none })
+    (h0 : 0 ≤ s.pc) (h1 : s.pc < 4294967296) : singleDone s = true ↔ halted prog (α s) :=
+  done_iff_lem prog s him h0 h1
+
+/-- For EVERY `n`: `n` calls of `RiscvSimulation.step()` (which does nothing once done) refine the
+    reference machine run for at most `n` steps — same final state, or the same fault. -/
+theorem sim_refines (prog : List Instr) (hp : ProgOK prog) (n : Nat) (s : St)
+    (him : s.imem = { prog := prog, cache := none }) (hs : StOK s) :
+    αStep (simN n s) = some (run prog n (α s)) :=
+  (simN_refines_lem prog hp n s him hs).1
+
+/-! ## (d) the program counter stays a 32-bit value -/
+
+/-- After a step of ANY state with `0 ≤ pc < 2^32` (cached or flat memory, any instruction, fault or
+    not) the pc is again in `[0, 2^32)`. -/
+theorem pc_normal (s : St) (h0 : 0 ≤ s.pc) (h1 : s.pc < 4294967296) :
+    0 ≤ (singleStep s).st.pc ∧ (singleStep s).st.pc < 4294967296 :=
+  singleStep_pc s h0 h1
+
+/-- … and therefore after every number of steps. -/
+theorem pc_normal_run (n : Nat) (s : St) (h0 : 0 ≤ s.pc) (h1 : s.pc < 4294967296) :
+    0 ≤ (stepN n s).st.pc ∧ (stepN n s).st.pc < 4294967296 :=
+  stepN_pc n s h0 h1
+
+/-! ## (e) the ecall table, clause by clause (a7 = x17 selects, a0 = x10 is the argument)
+
+These hold for EVERY state (no hypothesis on memory or registers) except the print-string clause. -/
+
+/-- a7 = 1: print a0 as a signed decimal number (two's complement reading of its 32 bits). -/
+theorem ecall_print_int (i : Instr) (s : St) (hop : i.op = .ecall) (h : s.regs 17 = 1) :
+    behavior i s =
+      { st := { s with output := s.output ++ toString (BitVec.ofNat 32 (s.regs 10)).toInt }, fault := none } := by
+  simp only [behavior, hop, Op.ty, processEcall, h, toInt_W, intToDec_eq]
+  rfl
+
+/-- a7 = 2: print a0 as a float (the float formatting itself is opaque: `floatMarker`). -/
+theorem ecall_print_float (i : Instr) (s : St) (hop : i.op = .ecall) (h : s.regs 17 = 2) :
+    behavior i s = { st := { s with output := s.output ++ floatMarker (s.regs 10) }, fault := none } := by
+  simp only [behavior, hop, Op.ty, processEcall, h]
+  rfl
+
+/-- a7 = 4: print the NUL-terminated string at address a0 — the bytes up to the first zero byte, each
+    as the character `byte mod 128` (`readStr`); if an address below the data base 16384 is reached
+    first (directly, or by running off the top of the address space), a memory address error for that
+    address and nothing is printed. -/
+theorem ecall_print_string (i : Instr) (s : St) (hop : i.op = .ecall) (h : s.regs 17 = 4) (hs : StOK s) :
+    (∀ cs, readStr (α s).mem (s.regs 10) = .ok cs →
+      behavior i s = { st := { s with output := s.output ++ String.ofList cs }, fault := none }) ∧
+    (∀ f, readStr (α s).mem (s.regs 10) = .error f →
+      ∃ a : Int, f = .access (BitVec.ofInt 32 a) ∧
+        behavior i s = { st := s, fault := some (.mem (.addr a)) }) := by
+  obtain ⟨m, hm, hc, _⟩ := hs.flat
+  obtain ⟨p1, p2, p3⟩ := printStr_flat s m hm hc (hs.regs_lt 10)
+  have hb : behavior i s = match printStrLoop printStrFuel s.mem (s.regs 10 : Int) [] with
+      | (m, .ok cs) => { st := { s with mem := m, output := s.output ++ String.ofList cs }, fault := none }
+      | (m, .error e) => { st := { s with mem := m }, fault := some (.mem e) } := by
+    simp only [behavior, hop, Op.ty, processEcall, h]
+    rcases printStrLoop printStrFuel s.mem (s.regs 10 : Int) [] with ⟨m', _ | _⟩ <;> rfl
+  rcases hps : printStrLoop printStrFuel s.mem (s.regs 10 : Int) [] with ⟨m', r⟩
+  rw [hps] at p1 p2 p3 hb
+  simp only at p1 p2 p3
+  subst p1
+  cases r with
+  | ok cs =>
+    refine ⟨fun cs' h' => ?_, fun f h' => ?_⟩
+    · rw [← p2] at h'; cases h'; exact hb
+    · rw [← p2] at h'; cases h'
+  | error e =>
+    obtain ⟨x, rfl⟩ := p3 e rfl
+    refine ⟨fun cs' h' => ?_, fun f h' => ?_⟩
+    · rw [← p2] at h'; cases h'
+    · rw [← p2] at h'; cases h'; exact ⟨x, rfl, hb⟩
+
+/-- What `readStr` (used by the print-string clause) denotes: it returns `cs` iff there is a first zero
+    byte at `a + k`, every address `a .. a + k` is a mapped data address (`≥ 16384`, `< 2^32`), and `cs`
+    is the list of the `k` bytes before it, each as the character `byte mod 128`. -/
+theorem print_string_text (mem : Word → Byte) (a : Nat) (cs : List Char) :
+    readStr mem a = .ok cs ↔
+      ∃ k, dataBase ≤ a ∧ a + k < 4294967296 ∧ (∀ j, j < k → mem (BitVec.ofNat 32 (a + j)) ≠ 0) ∧
+        mem (BitVec.ofNat 32 (a + k)) = 0 ∧
+        cs = (List.range k).map (fun j => Char.ofNat ((mem (BitVec.ofNat 32 (a + j))).toNat % 128)) :=
+  readStr_ok_iff mem a cs
+
+/-- … and it faults iff the scan reaches an unmapped address `a + k` (below the data base, or `2^32`,
+    which wraps to address 0) before any zero byte; the fault reports that address modulo 2^32. -/
+theorem print_string_fault (mem : Word → Byte) (a : Nat) (f : SpecFault) :
+    readStr mem a = .error f ↔
+      ∃ k, (∀ j, j < k → dataBase ≤ a + j ∧ a + j < 4294967296 ∧ mem (BitVec.ofNat 32 (a + j)) ≠ 0) ∧
+        (a + k < dataBase ∨ 4294967296 ≤ a + k) ∧ f = .access (BitVec.ofNat 32 (a + k)) :=
+  readStr_error_iff mem a f
+
+/-- a7 = 11: print the character `a0 mod 128`. -/
+theorem ecall_print_char (i : Instr) (s : St) (hop : i.op = .ecall) (h : s.regs 17 = 11) :
+    behavior i s =
+      { st := { s with output := s.output ++ String.singleton (Char.ofNat (s.regs 10 % 128)) }, fault := none } := by
+  simp only [behavior, hop, Op.ty, processEcall, h, String.singleton_eq_ofList]
+  rfl
+
+/-- a7 = 34: print `0x` followed by the upper-case hexadecimal digits of a0 (no leading zeros). -/
+theorem ecall_print_hex (i : Instr) (s : St) (hop : i.op = .ecall) (h : s.regs 17 = 34) :
+    behavior i s = { st := { s with output := s.output ++ ("0x" ++ upperHex (s.regs 10)) }, fault := none } := by
+  simp only [behavior, hop, Op.ty, processEcall, h, natToBase16]
+  rfl
+
+/-- a7 = 35: print `0b` followed by the binary digits of a0. -/
+theorem ecall_print_bin (i : Instr) (s : St) (hop : i.op = .ecall) (h : s.regs 17 = 35) :
+    behavior i s = { st := { s with output := s.output ++ ("0b" ++ binary (s.regs 10)) }, fault := none } := by
+  simp only [behavior, hop, Op.ty, processEcall, h, natToBase2]
+  rfl
+
+/-- a7 = 36: print a0 as an unsigned decimal number. -/
+theorem ecall_print_uint (i : Instr) (s : St) (hop : i.op = .ecall) (h : s.regs 17 = 36) :
+    behavior i s = { st := { s with output := s.output ++ toString (s.regs 10) }, fault := none } := by
+  simp only [behavior, hop, Op.ty, processEcall, h, natToBase10]
+  rfl
+
+/-- a7 = 10: exit with code 0. -/
+theorem ecall_exit0 (i : Instr) (s : St) (hop : i.op = .ecall) (h : s.regs 17 = 10) :
+    behavior i s = { st := { s with exitCode := some 0 }, fault := none } := by
+  simp only [behavior, hop, Op.ty, processEcall, h]
+  rfl
+
+/-- a7 = 93: exit with code a0. -/
+theorem ecall_exit_a0 (i : Instr) (s : St) (hop : i.op = .ecall) (h : s.regs 17 = 93) :
+    behavior i s = { st := { s with exitCode := some (s.regs 10 : Int) }, fault := none } := by
+  simp only [behavior, hop, Op.ty, processEcall, h]
+  rfl
+
+/-- Any other value of a7: the "not a valid code for ECALL" fault, state unchanged. -/
+theorem ecall_invalid (i : Instr) (s : St) (hop : i.op = .ecall)
+    (h : s.regs 17 ∉ [1, 2, 4, 11, 34, 35, 36, 10, 93]) :
+    behavior i s = { st := s, fault := some (.ecallCode (s.regs 17)) } := by
+  simp only [List.mem_cons, List.not_mem_nil, or_false, not_or] at h
+  obtain ⟨h1, h2, h4, h11, h34, h35, h36, h10, h93⟩ := h
+  simp only [behavior, hop, Op.ty, processEcall, h1, h2, h4, h11, h34, h35, h36, h10, h93, if_false]
+  rfl
+
+/-- The exit code changes only when an exit ecall is executed (a7 = 10: code 0; a7 = 93: code a0) —
+    for EVERY instruction and EVERY state.  Together with `done_iff`: execution ends exactly when the
+    pc holds no instruction or an exit ecall has been executed. -/
+theorem exit_only_by_ecall (i : Instr) (s : St) :
+    (behavior i s).st.exitCode = s.exitCode ∨
+      (i.op = .ecall ∧ ((s.regs 17 = 10 ∧ (behavior i s).st.exitCode = some 0) ∨
+        (s.regs 17 = 93 ∧ (behavior i s).st.exitCode = some (s.regs 10 : Int)))) :=
+  behavior_exit i s
+
+/-- The print-string loop with fuel `2^32 + 1` never runs out of fuel on a flat RISC-V memory — for
+    EVERY memory content, EVERY start address (any integer) and accumulator: it meets a zero byte, or
+    the address wraps into the unmapped range below 16384 and the read raises.  (Measure: distance of
+    the wrapped address to `2^32`.) -/
+theorem print_string_terminates (m : Mem.Mem) (hc : m.cfg = Mem.riscvCfg) (a : Int) (acc : List Char) :
+    (printStrLoop printStrFuel (.flat m) a acc).2 ≠ .error .policy :=
+  printStr_fuel m hc printStrFuel a acc (by simp only [printStrFuel]; omega)
+
+/-! ## Non-vacuity (the concrete state `exSt`, program `exProg`, initial state `exInit` and the observer
+`observe` are defined in `Lemmas/C01Defs.lean`) -/
+
+example : StOK exSt where
+  flat := ⟨_, rfl, rfl, ArchSim.Lemmas.C18.WF_empty _⟩
+  regs_lt := by intro r; simp only [exSt]; (repeat' split) <;> omega
+  x0 := rfl
+  pc_lo := by decide
+  pc_hi := by decide
+
+-- hypotheses of `exec_refines` for instructions of different families
+example : InstrWF { op := .mulhsu, rd := 1, rs1 := 6, rs2 := 5 } ∧ Supported Op.mulhsu := by decide
+example : InstrWF { op := .sw, rs1 := 7, rs2 := 6, imm := -2 } ∧ Supported Op.sw := by decide
+example : InstrWF { op := .jalr, rd := 1, rs1 := 6, imm := 2047 } ∧ Supported Op.jalr := by decide
+-- … and `InstrWF` excludes an out-of-range immediate, `Supported` excludes the CSR forms
+example : ¬ InstrWF { op := .addi, rd := 1, rs1 := 6, imm := 2048 } ∧ ¬ Supported Op.csrrw := by decide
+
+-- the reference semantics computes: mulhsu (-3) * 7 = -21, high word = 0xFFFFFFFF, pc = 12
+example : observe 1 0 (exec { op := .mulhsu, rd := 1, rs1 := 6, rs2 := 5 } (α exSt)) =
+    .inr (0xFFFFFFFF#32, 12#32, none, 0#8) := by decide
+-- jalr x1, 2047(x6): target (2^32 - 3 + 2047) mod 2^32 = 2044 with bit 0 cleared, link = 12
+example : observe 1 0 (exec { op := .jalr, rd := 1, rs1 := 6, imm := 2047 } (α exSt)) =
+    .inr (12#32, 2044#32, none, 0#8) := by decide
+-- div by zero gives -1, rem by zero the dividend
+example : observe 1 0 (exec { op := .div, rd := 1, rs1 := 5, rs2 := 0 } (α exSt)) =
+    .inr (0xFFFFFFFF#32, 12#32, none, 0#8) := by decide
+-- sw x6, -2(x7): byte 0 would go to 0x3FFE, below the data base: access fault at 0x3FFE
+example : observe 0 0 (exec { op := .sw, rs1 := 7, rs2 := 6, imm := -2 } (α exSt)) =
+    .inl (.access 0x3FFE#32) := by decide
+-- … and the model agrees (instance of `exec_refines`)
+example : (execOne { op := .sw, rs1 := 7, rs2 := 6, imm := -2 } exSt).fault = some (.mem (.addr 16382)) := by
+  decide
+-- sh x6, 0(x7) stores 0xFD at 0x4000 and 0xFF at 0x4001 (little endian)
+example : observe 0 0x4000 (exec { op := .sh, rs1 := 7, rs2 := 6, imm := 0 } (α exSt)) = .inr (0#32, 12#32, none, 0xFD#8)
+    ∧ observe 0 0x4001 (exec { op := .sh, rs1 := 7, rs2 := 6, imm := 0 } (α exSt)) = .inr (0#32, 12#32, none, 0xFF#8)
+    ∧ observe 0 0x4002 (exec { op := .sh, rs1 := 7, rs2 := 6, imm := 0 } (α exSt)) = .inr (0#32, 12#32, none, 0#8) :=
+  ⟨by decide, by decide, by decide⟩
+-- an invalid ecall code (a7 = 0) is a fault on both sides
+example : observe 0 0 (exec { op := .ecall } (α exSt)) = .inl (.ecall 0#32) ∧
+    (execOne { op := .ecall } exSt).fault = some (.ecallCode 0) := by decide
+
+-- hypotheses of `step_refines`, `run_refines`, `sim_refines`
+example : ProgOK exProg := ⟨by decide, by decide⟩
+example : StOK exInit :=
+  ⟨⟨_, rfl, rfl, ArchSim.Lemmas.C18.WF_empty _⟩, fun _ => by show (0 : Nat) < 4294967296; decide, rfl,
+    by decide, by decide⟩
+example : exInit.imem = { prog := exProg, cache := none } := rfl
+-- the model run: done after 8 steps with exit code 15 + (-1) = 14, the last instruction not executed
+example : (simN 100 exInit).st.exitCode = some 14 ∧ (simN 100 exInit).st.pc = 32 ∧
+    (simN 100 exInit).st.instrs = 8 ∧ (simN 100 exInit).fault = none ∧
+    singleDone (simN 100 exInit).st = true := by decide
+-- the reference run: same exit code, pc, x4 = sign-extended byte, memory byte (instance of `sim_refines`)
+example : observe 4 0x4001 (run exProg 100 (α exInit)) = .inr (0xFFFFFFFF#32, 32#32, some 14, 0xFF#8) := by
+  decide
+
 end ArchSim.Props.C01
